@@ -163,7 +163,7 @@ class _Helper:
         """`try: return x in S` / `except TypeError: return x in L` (x, S, L parameters): (x, S, L), else None.
         With S a hashed copy of L this is `x in L` (the set is only a faster way to the same answer; an
         unhashable x takes the list test)"""
-        b = self.body()
+        b = [st for st in self.node.body if not (isinstance(st, ast.Expr) and isinstance(st.value, ast.Constant))]
         if len(b) != 1 or not isinstance(b[0], ast.Try) or b[0].orelse or b[0].finalbody or len(b[0].handlers) != 1:
             return None
         t = b[0]
